@@ -110,8 +110,8 @@ PROPS = {
         rule="Quantize / RoundToIntegral* / Ceil / Floor events judged by Spec_Quantize, Spec_ToInt, Spec_CeilFloor",
     ),
     "C10": dict(
-        level_text='Spec_QuoInt / Spec_Rem are defined by the division identity over exact limb arithmetic and judge every recorded QuoInteger/Rem pair on S, L (gaps to 150 digits) and the GDA vectors.',
-        mc=[("MC_Round", None)],
+        level_text='Spec_QuoInt / Spec_Rem are defined by the division identity over exact limb arithmetic and judge every recorded QuoInteger/Rem pair on S, L (gaps to 150 digits) and the GDA vectors; the transcriptions of Context.QuoInteger / Rem (AlgArith) are model-checked to refine them and to satisfy the identity on their own outputs (MC_AlgArith!DivRefines; negative control: remainder with the sign of the quotient), and recorded calls must match them bit for bit (alg_model_drift).',
+        mc=[("MC_Round", None), ("MC_AlgArith", None), ("MC_AlgArith", "MC_AlgArith_remsign", "expect-violation")],
         drivers=["intS", "intL", "vectors:quoint,rem"],
         attr=attr_c10,
         rule="QuoInteger / Rem events judged by Spec_QuoInt / Spec_Rem (division identity by construction)",
